@@ -334,6 +334,21 @@ theorem expandKnown_exact (env : Env) (t : Bytes) : replaceKnown t [] env = .ok 
   unfold expandKnown replaceKnown at *
   cases h : replace t env ⟨[], false, false, false, none⟩ <;> simp_all [outOrEmpty]
 
+/-- **host matcher under automatic HTTPS: provision-time look plus request-time match is ONE expansion.**
+    Whenever the server provisions, the decision for a request is the comparison of its Host with the result
+    of a single `ReplaceAll` of the configured pattern under the request's replacer (by `single_pass` one
+    left-to-right cut of the CONFIGURED text) — values that `{env.…}` / `{file.…}` contributed are compared as
+    bytes. -/
+theorem host_match_is_one_expansion_of_the_configured_pattern (c : HostCase) (p1 p2 : Bytes) (m1 m2 : Bool)
+    (h : hostServe false c p1 p2 = some (m1, m2)) :
+    ∃ e1 e2, replaceAll p1 [] (hostReqEnv c) = .ok e1 ∧ replaceAll p2 [] (hostReqEnv c) = .ok e2 ∧
+      m1 = hostMatchOne id e1 c.host ∧ m2 = hostMatchOne id e2 c.host := by
+  unfold hostServe at h
+  rw [host_request_match_expands_the_configured_pattern] at h
+  refine ⟨_, _, expandAll_exact _ p1, expandAll_exact _ p2, ?_⟩
+  cases h1 : hostProvisionName c p1 <;> cases h2 : hostProvisionName c p2 <;> simp [h1, h2] at h
+  exact ⟨h.1.symm, h.2.symm⟩
+
 /-- **provider rows hand request text over untouched.** What the header / query-parameter / path /
     `http.vars.` rows of the modelled provider chain return is the request's bytes; the `file.` provider
     returns the file's bytes minus one trailing newline, and an unreadable file is known and empty. -/
